@@ -8,6 +8,7 @@ mod mutate;
 mod c16;
 mod c17;
 mod c18;
+mod c19;
 mod scratch;
 
 fn main() {
@@ -26,8 +27,9 @@ fn main() {
         "C16" => c16::run(tier, replay),
         "C17" => c17::run(tier, replay),
         "C18" => c18::run(tier, replay),
+        "C19" => c19::run(tier, replay),
         _ => {
-            eprintln!("usage: gencheck C07|C08|C09|C10|C16|C17|C18|C19 quick|thorough");
+            eprintln!("usage: gencheck C07..C10|C16..C19 quick|thorough");
             2
         }
     };
